@@ -265,3 +265,42 @@ def c13_7(ctx):
         ctx.count(1)
         if const(kw(c, 'openclose')) != '[]':
             ctx.fail(g, c, 'edge cut of _nona does not use closed brackets: the first/last valid row would be dropped')
+
+
+@obligation('C13.8', 'DEF-USE (bounds are what the caller gave)', '_pandas:_df_slice, _pandas:df_unslice',
+            'rows are kept exactly as lb/ub and the brackets prescribe: inside the single-slice helper a bound may only be converted (dt) - dropping a bound because it "precedes the data" changes an open bracket into a closed one on the boundary row; '
+            'df_unslice returns one series per bound, so no window may be filtered away',
+            axioms=())
+def c13_8(ctx):
+    fn = ctx.repo.fn('_pandas:_df_slice')
+    pm = parent_map(fn.node)
+    for b in ('lb', 'ub'):
+        for s in body_nodes(fn.node):
+            if isinstance(s, ast.Assign) and U(s.targets[0]) == b:
+                ctx.count(1, fn.where(s))
+                if N(s.value) == NS('%s if %s is None or isinstance(%s, datetime.time) else dt(%s)' % (b, b, b, b)):
+                    continue
+                g = pm.get(s)
+                if const(s.value, 'X') is None:
+                    ctx.fail(fn, g if isinstance(g, ast.If) else s, 'the bound `%s` is discarded under `%s`: when it coincides with a row the open/closed bracket no longer decides whether that row is kept (the label slice is closed on both ends)' % (b, U(g.test) if isinstance(g, ast.If) else '?'),
+                             witness="df_slice(ts, lb = ts.index[0], openclose = '(]') must drop the first row")
+                else:
+                    raise AnalysisError('unrecognised rebinding of %s in _df_slice: %s' % (b, U(s)))
+    ctx.count(1)
+    purity(ctx, [fn, ctx.repo.fn('_pandas:df_slice')], params={'df'}, what='sliced data')
+    g = ctx.repo.fn('_pandas:df_unslice')
+    ctx.count(1, g.where())
+    body = [U(s) for s in g.body]
+    want = ["n = df.shape[1] if is_df(df) else 1",
+            "res = dictable(ub=ub, lb=[None] + ub[:-1], i=range(len(ub)))",
+            "res = res(ts=lambda lb, ub: df_slice(df, lb, ub, '(]'))",
+            "res = res(rs=lambda i, ts: dictable(u=ub[i:i + n], j=range(len(ub[i:i + n])))(ts=lambda j: ts[j]))",
+            "rs = dictable.concat(res.rs).listby('u').do([pd.concat, nona], 'ts')",
+            "return dict(rs['u', 'ts'])"]
+    for c in calls_in(g.node):
+        if call_name(c) in ('inc', 'exc') or (call_name(c) == 'filter'):
+            ctx.fail(g, enclosing_stmt(parent_map(g.node), c), 'df_unslice filters its per-bound windows with %s(...): a bound whose windows are all empty disappears from the result, so there is no longer one series per bound and re-stitching cannot line up' % call_name(c),
+                     witness='a frame whose history starts after the first roll date')
+    if not ctx.findings and [b for b in body if b in want] != want:
+        missing = [w for w in want if w not in body]
+        raise AnalysisError('df_unslice pipeline changed: missing %s' % missing[:2])
